@@ -45,17 +45,18 @@ theorem incrFirst_ok (k : Nat) (x : Int) (l : List Int) (h : k ≤ l.length) :
         | zero => simp; omega
         | succ j => simpa using h4 hx j
 
-theorem balanceDemand_spec (pb : Problem) (hs : pb.s.length = pb.u.length)
+theorem balanceDemand_spec' (pb : Problem) (hs : pb.s.length = pb.u.length)
     (hd : pb.d.length = pb.v.length) (hm : 0 < pb.v.length ∨ pb.s.sum ≤ pb.d.sum) :
     ∃ pb', balanceDemand pb = .ok pb' ∧ pb'.u = pb.u ∧ pb'.v = pb.v ∧ pb'.s = pb.s ∧
       pb'.d.length = pb.d.length ∧ pb'.s.sum ≤ pb'.d.sum ∧
-      (∀ j, pb.d.getD j 0 ≤ pb'.d.getD j 0) ∧ (pb.s.sum ≤ pb.d.sum → pb' = pb) := by
+      (∀ j, pb.d.getD j 0 ≤ pb'.d.getD j 0) ∧ (pb.s.sum ≤ pb.d.sum → pb' = pb) ∧
+      (pb.d.sum ≤ pb.s.sum → pb'.s.sum = pb'.d.sum) := by
   have e1 : totalSupply pb = .ok pb.s.sum := by
     unfold totalSupply Problem.nbSources; rw [← hs]; exact sumFirst_eq _
   have e2 : totalDemand pb = .ok pb.d.sum := by
     unfold totalDemand Problem.nbSinks; rw [← hd]; exact sumFirst_eq _
   by_cases hle : pb.s.sum - pb.d.sum ≤ 0
-  · refine ⟨pb, ?_, rfl, rfl, rfl, rfl, by omega, fun _ => Int.le_refl _, fun _ => rfl⟩
+  · refine ⟨pb, ?_, rfl, rfl, rfl, rfl, by omega, fun _ => Int.le_refl _, fun _ => rfl, fun _ => by omega⟩
     simp [balanceDemand, e1, e2, bind, Except.bind, hle, pure, Except.pure]
   · have hmpos : 0 < pb.v.length := by
       rcases hm with h | h
@@ -79,7 +80,7 @@ theorem balanceDemand_spec (pb : Problem) (hs : pb.s.length = pb.u.length)
     have hrest : (pb.s.sum - pb.d.sum) - q * (pb.v.length : Int) = r := by omega
     have hrn : r.toNat ≤ d1.length := by omega
     obtain ⟨d2, l1, l2, l3, l4⟩ := incrFirst_ok r.toNat 1 d1 hrn
-    refine ⟨{ pb with d := d2 }, ?_, rfl, rfl, rfl, by simp; omega, ?_, ?_, fun h => by omega⟩
+    refine ⟨{ pb with d := d2 }, ?_, rfl, rfl, rfl, by simp; omega, ?_, ?_, fun h => by omega, ?_⟩
     · have hnil : ¬ pb.v = [] := fun h => by simp [h] at hmpos
       simp [balanceDemand, e1, e2, bind, Except.bind, hle, pure, Except.pure, hadd,
         Problem.nbSinks, k1, hrest, l1, hnil]
@@ -88,5 +89,17 @@ theorem balanceDemand_spec (pb : Problem) (hs : pb.s.length = pb.u.length)
       omega
     · intro j
       exact Int.le_trans (k4 hq0 j) (l4 (by omega) j)
+    · intro _
+      simp only [l3, k3]
+      have : ((r.toNat : Nat) : Int) = r := Int.toNat_of_nonneg hr0
+      omega
+
+theorem balanceDemand_spec (pb : Problem) (hs : pb.s.length = pb.u.length)
+    (hd : pb.d.length = pb.v.length) (hm : 0 < pb.v.length ∨ pb.s.sum ≤ pb.d.sum) :
+    ∃ pb', balanceDemand pb = .ok pb' ∧ pb'.u = pb.u ∧ pb'.v = pb.v ∧ pb'.s = pb.s ∧
+      pb'.d.length = pb.d.length ∧ pb'.s.sum ≤ pb'.d.sum ∧
+      (∀ j, pb.d.getD j 0 ≤ pb'.d.getD j 0) ∧ (pb.s.sum ≤ pb.d.sum → pb' = pb) := by
+  obtain ⟨pb', h1, h2, h3, h4, h5, h6, h7, h8, _⟩ := balanceDemand_spec' pb hs hd hm
+  exact ⟨pb', h1, h2, h3, h4, h5, h6, h7, h8⟩
 
 end ColoVerif.Transp1d
